@@ -4,7 +4,6 @@ import (
 	"fmt"
 	"strings"
 	"testing"
-	"time"
 
 	"github.com/agglayer/aggkit/agglayer"
 	agglayertypes "github.com/agglayer/aggkit/agglayer/types"
@@ -207,7 +206,7 @@ func runWalk(ch choose.Chooser, cfg walkCfg) (*walkRes, error) {
 		return nil, err
 	}
 	r.node = node
-	if err := node.startup(200 * time.Millisecond); err != nil {
+	if err := node.startup(m, 3); err != nil {
 		r.cleanup()
 		return nil, fmt.Errorf("startup on an empty state failed: %v", err)
 	}
